@@ -43,8 +43,15 @@ def _prepare(it):
         it.eng = core.Engine(c)
         it.eng.run()
     except (core.Unsupported, core.EngineError, KeyError, AttributeError, TypeError, IndexError, z3_error()) as ex:
-        it.error = ("<vcgen>", ex)
-        it.eng = None
+        # obligations generated before the executor gave up that are the constant False (a wiring / structural clause that is violated on that path)
+        # are still judged; everything else of this function stays undecided
+        partial = [ob for ob in (it.eng.obligations if it.eng is not None else []) if z3_is_false(ob.goal)]
+        if partial:
+            it.eng.obligations = partial
+            it.incomplete = ex
+        else:
+            it.error = ("<vcgen>", ex)
+            it.eng = None
 
 
 class _Ob:
@@ -165,6 +172,9 @@ def _report(rep, it, results, label, quiet):
         return {"status": "undecided", "results": [], "error": ex}
     eng = it.eng
     rep.add_function(c.source, c.function + getattr(c, "variant", ""), it.node.lineno, it.sha, dropped=sorted(set(eng.dropped)))
+    if getattr(it, "incomplete", None) is not None:
+        rep.add_obligation(f"{c.function}{getattr(c, 'variant', '')}.<vcgen-incomplete>", it.fnname, "undecided", "pyvc", 0.0, label,
+                           detail=f"{type(it.incomplete).__name__}: {it.incomplete}"[:400])
     if not eng.obligations:
         rep.add_obligation(f"{c.function}.<no-obligations>", it.fnname, "undecided", "pyvc", 0.0, label, detail="zero obligations generated")
         it.status = "undecided"
